@@ -262,7 +262,7 @@ class Gen:
 				return text, e
 		if self.on('escape', 0.1):
 			self.feats.add('escape')
-			esc = self.rng.choice(['\\n', '\\t', '\\\\', '\\1', '\\0', '\\x41', '\\' + q, '\\12'])
+			esc = self.rng.choice(['\\n', '\\t', '\\\\', '\\1', '\\0', '\\x41', '\\' + q, '\\12', '\\u00e9', '\\u4E2d', '\\U0001f600', '\\u0037', '\\xe9'])
 			parts = [body[:1], esc, body[1:]] if self.rng.random() < 0.5 else [body, esc]
 			text = f"{q}{''.join(parts)}{q}"
 			return text, eval(text, {'__builtins__': {}})
@@ -350,6 +350,9 @@ class Gen:
 		zeros as int() accepts them), float-looking text under int() (CPython: ValueError), int-looking and special text under float(),
 		and text neither accepts."""
 		rng = self.rng
+		if rng.random() < 0.15:
+			self.feats.add('unidigit')
+			return self.unicode_body(kind)
 		r = rng.random()
 		if r < 0.25:
 			digits = str(rng.randint(0, 70000))
@@ -370,6 +373,33 @@ class Gen:
 			# what int()/float() strip beyond ASCII blanks, and what only str.isspace()/nothing counts as blank (ValueError)
 			('\x0b', '\x0c'), ('\x85', '\xa0'), ('\u2003', '\u3000'), ('\u2028', '\u205f'), ('\x1c', ''), ('', '\x1f'), ('\u200b', ''), ('\ufeff', ' ')])
 		return f'{pad_l}{sign}{digits}{pad_r}'
+
+	def unicode_body(self, kind: str) -> str:
+		"""Digits beyond ASCII: int()/float() read every Unicode decimal digit (category Nd, any script, scripts may be mixed) and reject
+		the other numeric characters (superscripts, Ethiopic / Roman / CJK numerals, fractions: ValueError)."""
+		rng = self.rng
+		zeros = unicode_zeros()
+		n = rng.choice([rng.randint(0, 99), rng.randint(0, 70000), rng.randint(2 ** 53, 2 ** 64) | 1])
+		z = rng.choice(zeros)
+		mode = rng.random()  # one script / mixed scripts / mixed with ASCII
+		out = []
+		for d in str(n):
+			if mode < 0.4:
+				out.append(chr(z + int(d)))
+			elif mode < 0.7:
+				out.append(chr(rng.choice(zeros) + int(d)))
+			else:
+				out.append(chr(z + int(d)) if rng.random() < 0.5 else d)
+		if len(out) > 2 and rng.random() < 0.25:
+			k = rng.randint(1, len(out) - 1)
+			out.insert(k, '_')
+		if kind == 'float' and rng.random() < 0.5:
+			out.insert(rng.randint(0, len(out)), '.')
+		if rng.random() < 0.2:
+			out.insert(rng.randint(0, len(out)), rng.choice(['\xb2', '\u1369', '\u2167', '\xbd', '\u3007', '\u4e00', '\u2460', '\u0bf0', '\u3021']))
+		sign = rng.choice(['', '', '-', '+'])
+		pad_l, pad_r = rng.choice([('', ''), ('', ''), (' ', ''), ('\u2003', '\u3000'), ('', '\xa0')])
+		return f'{pad_l}{sign}{"".join(out)}{pad_r}'
 
 	def primary(self, kind: str, d: int) -> tuple[str, Any]:
 		rng = self.rng
@@ -487,6 +517,17 @@ class Gen:
 				continue
 			return t, v, set(self.feats)
 		return '1', 1, set()
+
+
+_ZEROS: list[int] = []
+
+
+def unicode_zeros() -> list[int]:
+	"""Code points of the zeros of all Unicode decimal-digit blocks of this interpreter's unicodedata (what the translator tabulates)."""
+	if not _ZEROS:
+		import unicodedata
+		_ZEROS.extend(c for c in range(0x110000) if unicodedata.category(chr(c)) == 'Nd' and unicodedata.decimal(chr(c)) == 0)
+	return _ZEROS
 
 
 def gen_module(rng: random.Random, regions: frozenset[str], max_depth: int, n_enums: int, n_members: int, boost: float = 1.0,
@@ -1018,8 +1059,14 @@ def gen_body(rng: random.Random) -> str:
 			if n == 3 and digits[0] > '3':
 				digits = rng.choice('0123') + digits[1:]
 			parts.append('\\' + digits)
-		elif r < 0.45:
+		elif r < 0.43:
 			parts.append('\\x' + rng.choice('0123456789abcdefABCDEF') + rng.choice('0123456789abcdefABCDEF'))
+		elif r < 0.47:
+			# \uhhhh / \Uhhhhhhhh of a scalar value (a lone surrogate is a Python str no Lean Char holds; beyond U+10FFFF CPython rejects)
+			n = rng.choice([rng.randint(0, 0xD7FF), rng.randint(0xE000, 0xFFFF), rng.randint(0x10000, 0x10FFFF), rng.randint(0x30, 0x39)])
+			h = f'{n:04x}' if n <= 0xFFFF and rng.random() < 0.7 else f'{n:08x}'
+			h = ''.join(ch.upper() if rng.random() < 0.3 else ch for ch in h)
+			parts.append(('\\u' if len(h) == 4 else '\\U') + h)
 		elif r < 0.6:
 			parts.append('\\' + rng.choice(['n', 't', 'r', 'a', 'b', 'f', 'v', '\\', "'", '"']))
 		elif r < 0.65:
@@ -1066,14 +1113,14 @@ def stream_unescape(ctx: Ctx) -> Stream:
 # search on the real code alone
 
 
-ESC = re.compile(r'\\(x[0-9a-fA-F]{2}|[0-7]{1,3}|.)', re.S)
+ESC = re.compile(r'\\(x[0-9a-fA-F]{2}|u[0-9a-fA-F]{4}|U[0-9a-fA-F]{8}|[0-7]{1,3}|.)', re.S)
 SIMPLE_ESC = {'n': '\n', 't': '\t', '\\': '\\', "'": "'", '"': '"', 'r': '\r', 'a': '\a', 'b': '\b', 'f': '\f', 'v': '\v'}
 
 
 def unescape(s: str) -> str:
 	def rep(m: re.Match[str]) -> str:
 		g = m.group(1)
-		if g[0] == 'x' and len(g) == 3:
+		if (g[0] == 'x' and len(g) == 3) or (g[0] == 'u' and len(g) == 5) or (g[0] == 'U' and len(g) == 9):
 			return chr(int(g[1:], 16))
 		if g[0] in '01234567':
 			return chr(int(g, 8))
@@ -1168,7 +1215,7 @@ def search_real(ctx: Ctx, app: Any, seen_cases: list[Case]) -> SearchResult:
 			if cls == 'value/py-error':
 				k2 = f'value-where-python-raises:{type(py).__name__}'
 				hist[k2] = hist.get(k2, 0) + 1
-			for f in feats & SPECIAL_FEATURES:
+			for f in feats & (SPECIAL_FEATURES | {'unidigit'}):
 				hist[f'region:{f}'] = hist.get(f'region:{f}', 0) + 1
 			if bad:
 				key = finding_key(feats, real, py)
@@ -1442,7 +1489,7 @@ def search_output(ctx: Ctx, cases: list[Case]) -> SearchResult:
 
 STATEMENTS = {
 	'sound': 'for every expression, environment, fuel and interpretation of float (FloatText: str(x) has no backslash, float(text) rejects a backslash): if CPython (0X literals and string tokens with a backslash cut out) evaluates e to v2 then the folder returns v ~ v2 (same type, same value, string content) or refuses (an application error that is not a wrapped Python exception, or the recursion limit) - induction over the fuel and the flat chains',
-	'agree': "no guard on the expression: execImpl e = ok v and evalPy e = ok v2 imply v ~ v2, INCLUDING string tokens with escape sequences: a folder string is a raw body between two quote characters and CPython's string is what the body decodes to (decodeEsc: octal, \\xhh, one-character and unknown escapes; \\u, \\U, \\N{...} outside evalPy); needs FloatText of the float interpretation",
+	'agree': "no guard on the expression: execImpl e = ok v and evalPy e = ok v2 imply v ~ v2, INCLUDING string tokens with escape sequences: a folder string is a raw body between two quote characters and CPython's string is what the body decodes to (decodeEsc: octal, \\xhh, \\uhhhh, \\Uhhhhhhhh, one-character and unknown escapes; \\N{...} and lone surrogates outside evalPy); needs FloatText of the float interpretation",
 	'refuse': 'an error of execImpl is a refusal (OperationNotAllowed, UnresolvedSymbol, an error of type inference, the recursion limit) or CPython raises on e as well, as long as no 0X literal and no string token with a backslash is evaluated (int of an escaped digit string is a wrapped ValueError where CPython has a value: an application error, allowed)',
 	'chain': 'evaluating the left-nested tree CPython builds for a flat chain = the left fold over the chain (operand, operation, left to right, first exception wins)',
 	'consistent_bindAll': "executing the Enum bodies top to bottom yields an environment consistent with the folder's member lookup when member keys are distinct (hypothesis Cons is satisfiable)",
@@ -1450,10 +1497,10 @@ STATEMENTS = {
 	'quote_in_value_counterexample': "the guard hq of output_agree/output_sound (a string value contains no double quote) is necessary: the enum value 'say \"hi\"' is inlined as \"say \"hi\"\", not one C++ literal (finding output-unescaped-double-quote); mixed-quote joins like 'a' + \"it's\" are fine (content and emitted text)",
 	'output_sound': 'and when on_relay fails instead it is a refusal (0X literals cut out)',
 	'upperhex_counterexample': 'guard H4 is necessary for sound/refuse: 0X1F is 31 in CPython, the folder raises a wrapped ValueError (an application error, allowed by the property)',
-	'escape_counterexample': "documentation of the hazard: plain _cat does not commute with decoding escapes (decodeEsc: octal, \\xhh, one-character and unknown escapes): the bodies \\1 and 2 would join to \\12 = one newline character; tokens with a backslash are outside evalPy",
+	'escape_counterexample': "documentation of the hazard: plain _cat does not commute with decoding escapes (decodeEsc: octal, \\xhh, \\uhhhh, \\Uhhhhhhhh, one-character and unknown escapes): the bodies \\1 and 2 would join to \\12 = one newline character; tokens with a backslash are outside evalPy",
 	'join_decodes': 'for ALL pairs of bodies: unless the left one ends inside an escape the right one continues (joinsEscape), decoding the joined body = joining the decoded bodies',
 	'catSafe_decodes': 'the positive statement about the SHIPPED join rule (since 05486b1 the string branch of _op_bin_each refuses when _joins_escape; the model step uses catSafe): what it returns decodes to the concatenation of what its operands decode to',
-	'pyInt_accepts_iff': "the model of Python's int(str), base 10, accepts exactly blanks sign? digit (_? digit)* blanks (blanks = C isspace + Unicode White_Space beyond ASCII) with the denoted value",
+	'pyInt_accepts_iff': "the model of Python's int(str), base 10, accepts exactly blanks sign? digit (_? digit)* blanks (blanks = C isspace + Unicode White_Space beyond ASCII; digit = any Unicode decimal digit, generated table) with the denoted value",
 	'pyInt_rejects': 'and answers ValueError for every other text',
 	'int_cast_accepts_iff': "the folder's int('<text>') yields n exactly for the texts of that grammar (applied to token[1:-1])",
 }
@@ -1462,9 +1509,10 @@ STATEMENTS = {
 def run(ctx: Ctx) -> int:
 	translate_ok, translate_msg = True, ''
 	try:
-		from translate import gen_eval_ops, gen_literalize
+		from translate import gen_eval_ops, gen_literalize, gen_unicode_digits
 		ctx.generated_tables.extend(gen_eval_ops.generate())
 		ctx.generated_tables.extend(gen_literalize.generate())
+		ctx.generated_tables.extend(gen_unicode_digits.generate())
 	except Exception as e:  # noqa: BLE001
 		translate_ok, translate_msg = False, f'translator: {type(e).__name__}: {e}'
 	proof = common.prove(ctx, PROP, leanchecker=ctx.thorough)
@@ -1495,9 +1543,10 @@ def run(ctx: Ctx) -> int:
 		translate_ok=translate_ok, translate_msg=translate_msg,
 		statements=STATEMENTS,
 		partial={
-			'proved': 'a different value is never produced: agreement of value and type (no guard; string tokens with octal, \\xhh and one-character escapes included), or refusal, for every expression of the model (literals, unary sign, parentheses, the ten operators in flat chains, casts, member references), for every interpretation of float',
+			'proved': 'a different value is never produced: agreement of value and type (no guard; string tokens with octal, \\xhh, \\uhhhh, \\Uhhhhhhhh and one-character escapes included), or refusal, for every expression of the model (literals, unary sign, parentheses, the ten operators in flat chains, casts, member references), for every interpretation of float',
 			'correspondence_only': 'that execImpl is LiteralEvaluator on the Procedure machine and evalPy is CPython (incl. floor %, shifts, two\'s-complement bitwise ops, int()/float()/str() spellings)',
-			'search_only': 'string tokens with \\u, \\U, \\N{...} escapes (evalPy answers unsupported), the C++ reading of an inlined text with escapes, IEEE behaviour of the real floats',
+			'search_only': 'the C++ reading of an inlined text with escapes, IEEE behaviour of the real floats',
+			'outside': 'string tokens with \\N{...} or an escape of a lone surrogate (evalPy answers unsupported; never generated)',
 		},
 		assumptions=[
 			'FloatText: the float interpretation prints no backslash in str(x) and float(text) rejects a text with a backslash (true of CPython; hypotheses of sound/agree/refuse/output_*)',
@@ -1505,7 +1554,7 @@ def run(ctx: Ctx) -> int:
 			'a member whose CPython evaluation raises is modelled as re-raising when read (CPython would abort the module)',
 			'names of enum members do not shadow the called builtins; own-enum members are referenced by bare name, other enums as Enum.Member.value',
 			'recursion depth of the generated cases stays below both Python\'s recursion limit and the model\'s fuel',
-			'int()/float() digits are ASCII (non-ASCII decimal digits are outside pyInt and never generated; blanks are modelled: C isspace + Unicode White_Space beyond ASCII)',
+			"int(str) reads every Unicode decimal digit (category Nd; the table of the 0..9 blocks is generated from the interpreter's unicodedata on every run: Generated/UnicodeDigits.lean); blanks: C isspace + Unicode White_Space beyond ASCII; float(str) is the abstract ops.parse (interpreted by CPython in the tie)",
 			"CPython's 4300-digit limit of int/str conversion is lifted in the harness process (the model has none)",
 		],
 		trusted=['the harness interpreter of float terms (harness/c17.py eval_term/answer) uses CPython float operations'])
